@@ -162,12 +162,18 @@ def check_network(ctx, net, tag="", via_graph=False, pinned=None):
         rule_, a_, b_ = net[pos]
         a2 = tuple((s_, c_ + 1) for s_, c_ in a_) if a_ else (("A", 1),)
         if dict(a2) or dict(b_):
-            an3 = DeficiencyAnalyzer(H).compute_summary()
+            an3 = DeficiencyAnalyzer(H).compute_summary().compute_linkage_deficiencies()
             H.remove_rxn(eid)
             H.add_rxn(dict(a2), dict(b_), rule=rule_, edge_id=eid)
             # the oracle reads the network back from the store as it is now
             o2 = oracle([((e_.rule), tuple(sorted(e_.reactants.items())), tuple(sorted(e_.products.items()))) for e_ in H.edges.values()])
             an3.compute_summary()
+            # results derived from the previous summary must not survive the recomputation as if they were current
+            stale = an3.linkage_deficiencies
+            if stale is not None and (sorted(stale) != o2["linkage_deficiencies"] or sum(stale) > o2["deficiency"]):
+                ctx.violation("stale-after-edit", {**wit, "edited": eid, "new_reactants": a2},
+                              f"after compute_summary() on the edited network the analyzer still reports the old linkage deficiencies {stale} "
+                              f"next to deficiency {an3.summary.deficiency} (now: {o2['linkage_deficiencies']})")
             an3.compute_linkage_deficiencies()
             ctx.count("analyzer_reused_after_edit_checked")
             sm3 = an3.summary
